@@ -251,9 +251,18 @@ def run(ctx):
                 if b.get("accepted") is True and a.get("accepted") is True:
                     b["schema"] = a["schema"]       # the schema proper is {} in both
             else:
-                reg_a, reg_b = cerberus.schema.RulesSetRegistry(), cerberus.schema.RulesSetRegistry()
+                reg_a = cerberus.schema.RulesSetRegistry()
                 reg_a.add('R', copy.deepcopy(rules))
-                reg_b.add('R', copy.deepcopy(var))
+                form = rng.choice(["add", "extend", "constructor"])       # the three ways of filling a registry
+                if form == "add":
+                    reg_b = cerberus.schema.RulesSetRegistry()
+                    reg_b.add('R', copy.deepcopy(var))
+                elif form == "extend":
+                    reg_b = cerberus.schema.RulesSetRegistry()
+                    reg_b.extend({'R': copy.deepcopy(var)})
+                else:
+                    reg_b = cerberus.schema.RulesSetRegistry({'R': copy.deepcopy(var)})
+                dist["registry_filled_by_" + form] += 1
                 a = observe({'u': 'R'}, {"rules_set_registry": reg_a}, [doc])
                 b = observe({'u': 'R'}, {"rules_set_registry": reg_b}, [doc])
                 if a.get("accepted") is True and reg_a.get('R') != reg_b.get('R'):
